@@ -95,6 +95,22 @@ X64_INTEL = {
     "jmp": "jmp {sym}", "je": "je {sym}", "call": "call {sym}", "ijmp": "jmp rax", "icall": "call rax", "ret": "ret",
 }
 
+# x86 instructions with two symbolic operands of different widths (memory displacement + immediate):
+# (name, AT&T text, Intel text | None, bytes, [(byte offset, byte size) of {s1}, of {s2}])
+TWO_SYM = {
+    "x64": [
+        ("movw2", "movw ${s2},{s1}(%rip)", "mov word ptr [rip+{s1}],offset {s2}", "66c705000000000000", [(3, 4), (7, 2)]),
+        ("movb2", "movb ${s2},{s1}(%rip)", "mov byte ptr [rip+{s1}],offset {s2}", "c6050000000000", [(2, 4), (6, 1)]),
+        ("movl2", "movl ${s2},{s1}(%rip)", "mov dword ptr [rip+{s1}],offset {s2}", "c7050000000000000000", [(2, 4), (6, 4)]),
+        ("cmpw2", "cmpw ${s2},{s1}(%rip)", None, "66833d0000000000", [(3, 4), (7, 1)]),
+    ],
+    "ia32": [
+        ("movw2", "movw ${s2},{s1}", None, "66c705000000000000", [(3, 4), (7, 2)]),
+        ("movb2", "movb ${s2},{s1}", None, "c6050000000000", [(2, 4), (6, 1)]),
+        ("movl2", "movl ${s2},{s1}", None, "c7050000000000000000", [(2, 4), (6, 4)]),
+    ],
+}
+
 TABLES = {"x64": X64, "ia32": IA32, "arm64": ARM64, "mips32": MIPS32}
 TRIPLES = {
     ("x64", "elf"): "x86_64-pc-linux",
@@ -221,6 +237,23 @@ def calibrate():
                                          capstone.CS_GRP_BRANCH_RELATIVE})
             if isa != "mips32" and is_transfer != (tpl.kind in TRANSFER):
                 raise HarnessError(f"calibration: {isa} {tpl.name} kind {tpl.kind} vs capstone groups {groups}")
+        for name, att, intel, hexb, fields in TWO_SYM.get(isa, []):
+            for syntax, text in (("att", att), ("intel", intel)):
+                if text is None:
+                    continue
+                s = S()
+                a = mcasm.Assembler(TRIPLES[(isa, fmt)])
+                if syntax == "intel":
+                    a.x86_syntax = mcasm.X86Syntax.INTEL
+                a.assemble(s, text.replace("{s1}", "undefa").replace("{s2}", "undefb") + "\n")
+                if len(s.out) != 1 or s.out[0][0] != bytes.fromhex(hexb):
+                    raise HarnessError(f"calibration: {isa}/{fmt} {name} {syntax}: {[(d.hex(), f) for d, f in s.out]} table {hexb}")
+                fx = sorted(s.out[0][1])
+                if fx != sorted((o, 8 * n) for o, n in fields):
+                    raise HarnessError(f"calibration: {isa}/{fmt} {name} {syntax}: fixups {fx} table {fields}")
+                insns = list(md.disasm(s.out[0][0], 0))
+                if len(insns) != 1 or insns[0].size != len(s.out[0][0]):
+                    raise HarnessError(f"calibration: {isa} {name} capstone disagrees")
     _calibrated = True
 
 
